@@ -523,13 +523,21 @@ fn kc4_buffer_ring(sim: bool) -> Result<Out, String> {
     publish(0, 7, 3);
     let c4 = read(4);
     ensure!(c4.res == 1 && c4.flags >> 16 == 7, "read after re-publishing buffer 7: {c4:?}");
+    // The kernel only compares the tail with its head for (in)equality: a tail word that reads 0
+    // (what a writer produces that stores `resv: 0` into slot 0, whose `resv` IS the tail) makes
+    // it hand out the stale entry at its head although nothing was published.
+    let c5 = read(5);
+    ensure!(c5.res == -libc::ENOBUFS, "fifth read, nothing published: {c5:?}");
+    unsafe { (mem.cast::<u8>().add(14) as *mut u16).write_volatile(0) };
+    let c6 = read(6);
+    ensure!(c6.res == 1 && c6.flags >> 16 == 9, "read with the tail word zeroed (head 3): {c6:?} — expected the stale entry of slot 1 (buffer 9)");
     unsafe {
         libc::close(pr);
         libc::close(pw);
         libc::munmap(mem, 4096);
     }
     drop(data);
-    Ok(Out::Ok("ids 7, 9 selected in publication order, each once; -ENOBUFS with none left; 7 again after re-publishing".into()))
+    Ok(Out::Ok("ids 7, 9 selected in publication order, each once; -ENOBUFS with none left; 7 again after re-publishing; with the tail word zeroed the stale entry at the head (buffer 9) is handed out: only tail != head is checked".into()))
 }
 
 /// Appendix B step 3: the return value of `io_uring_enter` — the number submitted wins over the
